@@ -315,6 +315,8 @@ def run(ctx):
         prog = c03.add_assertions(ctx.rng, prog, n_max=3)
         one_case(ctx, prog)
     searches_resample_value(ctx)
+    import c04_table
+    c04_table.run_table(ctx)
 
 
 class _HalfRejecting(af.Analysis):
@@ -405,4 +407,7 @@ def replay(ctx, payload):
     case = payload.get("case") or payload.get("disagreements", [{}])[0].get("case")
     if case.get("label") == "search-resample":
         return searches_resample_value(ctx)
+    if case.get("label") in ("table", "row"):
+        import c04_table
+        return c04_table.run_table(ctx)
     one_case(ctx, case["program"], case.get("spec"), label="replay")
